@@ -67,9 +67,7 @@ Proof. vm_compute. repeat split. Qed.
 (** Algorithm layer (Model/Bmc.v: the loop of bmc.rs over an abstract solver).
     Over any solver that answers "sat" exactly when the query has a model,
     checking the bad states individually or jointly gives the same result - for
-    the repaired encoding of every well-formed system.  (The exactness of the loop
-    with respect to [bmc_spec] is NOT proved: see the end of Proofs/BmcProofs.v for
-    the statement and the missing ingredient.) *)
+    the repaired encoding of every well-formed system. *)
 From Patronus Require Import Encoding EncodingWf Bmc BmcProofs.
 Theorem C02_bmc_modes_agree :
   forall (solver_sat : list cmd -> list expr -> list expr -> bool),
@@ -85,8 +83,7 @@ Print Assumptions C02_bmc_modes_agree.
     initial valuation reaches a bad state within the bound, the loop (either
     mode) does not answer [BmcSuccess] - it answers [BmcFail] at some depth, or
     panics in [get_signal_at].  This is the "no wrong SAFE verdict" half of
-    exactness; the converse half (every [BmcFail] is a real counterexample) is
-    covered per run by C03's witness check, not by a theorem. *)
+    exactness; the full statement follows. *)
 Theorem C02_bmc_no_missed_counterexample :
   forall (solver_sat : list cmd -> list expr -> list expr -> bool),
     (forall sc asserts assumps,
@@ -97,3 +94,59 @@ Theorem C02_bmc_no_missed_counterexample :
       bmc_model Fixed solver_sat sy nm individually k_max <> BmcSuccess.
 Proof. exact bmc_no_miss_final. Qed.
 Print Assumptions C02_bmc_no_missed_counterexample.
+
+(** bmc_model_exact: over a correct solver, for the repaired encoding of every
+    well-formed system with pairwise distinct inputs whose init expressions are in
+    the class the encoding handles, and unless [get_signal_at] panics, the loop of
+    bmc.rs (either checking mode) answers [BmcFail j] exactly when [j] is the least
+    depth [<= k_max] at which a constrained execution from an initial valuation is
+    in a bad state, and [BmcSuccess] exactly when there is no such depth.
+    (Uses: C04's well-formedness and faithfulness, and its converse - every model
+    of the definitions is an execution, Proofs/BmcSound.v.) *)
+From Patronus Require Import BmcSound.
+Theorem C02_bmc_model_exact :
+  forall (solver_sat : list cmd -> list expr -> list expr -> bool),
+    (forall sc asserts assumps,
+        solver_sat sc asserts assumps = true <-> exists sigma0, is_model sc asserts assumps sigma0) ->
+    forall (sy : sys) (nm : expr -> string) (k_max : nat) (individually : bool),
+      sys_wf sy = true -> nodup_exprs (s_inputs sy) = true ->
+      names_ok (enc_new sy nm) = true -> init_reads_ok (enc_new sy nm) ->
+      let res := bmc_model Fixed solver_sat sy nm individually k_max in
+      res <> BmcPanic ->
+      (forall j, res = BmcFail (N.of_nat j) <->
+                 (j <= k_max)%nat /\ reach_at sy j /\ forall m, (m < j)%nat -> ~ reach_at sy m) /\
+      (res = BmcSuccess <-> forall j, (j <= k_max)%nat -> ~ reach_at sy j).
+Proof. exact bmc_model_exact_final. Qed.
+Print Assumptions C02_bmc_model_exact.
+
+(** the loop and the explicit-state reference give the same answer *)
+Theorem C02_bmc_model_is_spec :
+  forall (solver_sat : list cmd -> list expr -> list expr -> bool),
+    (forall sc asserts assumps,
+        solver_sat sc asserts assumps = true <-> exists sigma0, is_model sc asserts assumps sigma0) ->
+    forall (sy : sys) (nm : expr -> string) (k_max : nat) (individually : bool),
+      sys_wf sy = true -> nodup_exprs (s_inputs sy) = true -> no_array_init sy = true ->
+      names_ok (enc_new sy nm) = true -> init_reads_ok (enc_new sy nm) ->
+      let res := bmc_model Fixed solver_sat sy nm individually k_max in
+      res <> BmcPanic ->
+      (forall j, res = BmcFail (N.of_nat j) <-> bmc_spec sy k_max = Some j) /\
+      (res = BmcSuccess <-> bmc_spec sy k_max = None).
+Proof. exact bmc_model_is_spec. Qed.
+Print Assumptions C02_bmc_model_is_spec.
+
+(** the same for the loop over the CURRENT encoding, outside the known class *)
+From Patronus Require Import EncodingTheorems.
+Theorem C02_bmc_model_exact_current :
+  forall (solver_sat : list cmd -> list expr -> list expr -> bool),
+    (forall sc asserts assumps,
+        solver_sat sc asserts assumps = true <-> exists sigma0, is_model sc asserts assumps sigma0) ->
+    forall (sy : sys) (nm : expr -> string) (k_max : nat) (individually : bool),
+      sys_wf sy = true -> nodup_exprs (s_inputs sy) = true ->
+      names_ok (enc_new sy nm) = true -> init_reads_ok (enc_new sy nm) -> ~ known_class (enc_new sy nm) 0 ->
+      let res := bmc_model Current solver_sat sy nm individually k_max in
+      res <> BmcPanic ->
+      (forall j, res = BmcFail (N.of_nat j) <->
+                 (j <= k_max)%nat /\ reach_at sy j /\ forall m, (m < j)%nat -> ~ reach_at sy m) /\
+      (res = BmcSuccess <-> forall j, (j <= k_max)%nat -> ~ reach_at sy j).
+Proof. exact bmc_model_exact_current. Qed.
+Print Assumptions C02_bmc_model_exact_current.
